@@ -7,6 +7,7 @@ Regenerates, from the source as it is NOW, the methods that carry the logic of C
 delivery, as Gallina definitions over the state types of Trig.v / Fetch.v:
 
   TrigGen.v    AccumulatingInputSignal.reset, AccumulatingInputSignal.__call__, InputSignal.__call__
+  ConnGen.v    Channel.connect (the loop body for one partner, and the loop)
   FetchGen.v   DataChannel._has_hint, ._value_is_data, .ready, ._type_check_new_value, DataChannel.value (setter),
                InputData.value (setter), InputData.fetch
 
@@ -330,14 +331,93 @@ class Fetch:
                 "From PW Require Import Base Trig Fetch ChanPrim.\n\n" + "\n".join(parts))
 
 
+# ======================================================================== connections (state: Chan.cstore, self = channel a)
+CONN_EXC = {"ChannelConnectionError": "ConnErr", "TypeError": "TypeErr"}
+
+
+class Conn:
+    """Channel.connect: the body of `for other in others:` as a function (state, self, other) -> state * res
+    (Ok = go on with the next partner, Err e = e is raised with the state as it is then)"""
+
+    def __init__(self, tree):
+        self.tree = tree
+
+    def cond(self, n, x):
+        if (isinstance(n, ast.Compare) and len(n.ops) == 1 and isinstance(n.ops[0], (ast.In, ast.NotIn))
+                and isinstance(n.left, ast.Name) and n.left.id == x and is_self_attr(n.comparators[0], "connections")):
+            e = f"memn {x} (conns s a)"
+            return f"negb ({e})" if isinstance(n.ops[0], ast.NotIn) else e
+        if (isinstance(n, ast.Call) and isinstance(n.func, ast.Name) and n.func.id == "isinstance" and len(n.args) == 2
+                and isinstance(n.args[0], ast.Name) and n.args[0].id == x
+                and ast.unparse(n.args[1]) == "self.connection_conjugate()"):
+            return f"conjb W a {x}"
+        if (isinstance(n, ast.Call) and is_self_attr(n.func, "_valid_connection") and len(n.args) == 1 and not n.keywords
+                and isinstance(n.args[0], ast.Name) and n.args[0].id == x):
+            return f"validb W a {x}"
+        if isinstance(n, ast.UnaryOp) and isinstance(n.op, ast.Not):
+            return f"negb ({self.cond(n.operand, x)})"
+        if isinstance(n, ast.BoolOp):
+            op = "&&" if isinstance(n.op, ast.And) else "||"
+            return "(" + f" {op} ".join(self.cond(v, x) for v in n.values) + ")"
+        bad(n, "condition outside the translated idioms")
+
+    def body(self, stmts, k, x):
+        if not stmts:
+            return k
+        st, rest = stmts[0], stmts[1:]
+        if isinstance(st, ast.Continue):
+            return "(s, Ok)"
+        if isinstance(st, ast.Raise) and st.exc is not None:
+            f = st.exc.func if isinstance(st.exc, ast.Call) else st.exc
+            if isinstance(f, ast.Name) and f.id in CONN_EXC:
+                return f"(s, Err {CONN_EXC[f.id]})"
+            bad(st, "raise outside the translated idioms")
+        if isinstance(st, ast.If):
+            kk = self.body(rest, k, x)
+            return f"(if {self.cond(st.test, x)}\n   then {self.body(st.body, kk, x)}\n   else {self.body(st.orelse, kk, x)})"
+        if isinstance(st, ast.Pass):
+            return self.body(rest, k, x)
+        if (isinstance(st, ast.Expr) and isinstance(st.value, ast.Call) and isinstance(st.value.func, ast.Attribute)
+                and st.value.func.attr == "insert" and len(st.value.args) == 2 and not st.value.keywords
+                and isinstance(st.value.args[0], ast.Constant) and st.value.args[0].value == 0):
+            tgt, what = st.value.func.value, st.value.args[1]
+            if is_self_attr(tgt, "connections") and isinstance(what, ast.Name) and what.id == x:
+                return f"(let s := setc s a ({x} :: conns s a) in {self.body(rest, k, x)})"
+            if (isinstance(tgt, ast.Attribute) and tgt.attr == "connections" and isinstance(tgt.value, ast.Name) and tgt.value.id == x
+                    and isinstance(what, ast.Name) and what.id == "self"):
+                return f"(let s := setc s {x} (a :: conns s {x}) in {self.body(rest, k, x)})"
+        bad(st, "statement outside the translated idioms")
+
+    def generate(self):
+        fn = find_method(self.tree, "Channel", "connect")
+        a = fn.args
+        if [x.arg for x in a.args] != ["self"] or a.vararg is None or a.kwonlyargs or a.kwarg:
+            bad(fn, "connect signature")
+        body = strip_doc(fn.body)
+        if not (len(body) == 1 and isinstance(body[0], ast.For) and isinstance(body[0].target, ast.Name)
+                and isinstance(body[0].iter, ast.Name) and body[0].iter.id == a.vararg.arg and not body[0].orelse):
+            bad(fn, "connect is not a single loop over its arguments")
+        x = body[0].target.id
+        one = self.body(body[0].body, "(s, Ok)", x)
+        return ("(* GENERATED by tools/py2gallina_chan.py from pyiron_workflow/channels.py -- do not edit *)\n"
+                "From PW Require Import Base Chan.\n\n"
+                f"(* Channel.connect: the loop body for one partner *)\n"
+                f"Definition gen_connect1 (W : world) (s : cstore) (a {x} : nat) : cstore * res :=\n  {one}.\n\n"
+                f"(* Channel.connect( *others ): partners in the written order, stopping at the first exception *)\n"
+                f"Fixpoint gen_connect (W : world) (s : cstore) (a : nat) (others : list nat) : cstore * res :=\n"
+                f"  match others with\n  | [] => (s, Ok)\n  | {x} :: rest => match gen_connect1 W s a {x} with\n"
+                f"                    | (s', Ok) => gen_connect W s' a rest\n                    | (s', Err e) => (s', Err e)\n"
+                f"                    end\n  end.\n")
+
+
 def main():
     src, outdir = Path(sys.argv[1]), Path(sys.argv[2])
     status = {}
     try:
         tree = ast.parse(src.read_text())
     except (OSError, SyntaxError) as e:
-        tree, status = None, {"trig": f"cannot parse: {e}", "fetch": f"cannot parse: {e}"}
-    for key, cls, fname in (("trig", Trig, "TrigGen.v"), ("fetch", Fetch, "FetchGen.v")):
+        tree, status = None, {k: f"cannot parse: {e}" for k in ("trig", "fetch", "conn")}
+    for key, cls, fname in (("trig", Trig, "TrigGen.v"), ("fetch", Fetch, "FetchGen.v"), ("conn", Conn, "ConnGen.v")):
         out = outdir / fname
         if tree is None:
             continue
